@@ -111,6 +111,8 @@ class Built:
         k = nd["k"]
         if k == "val":
             return L.Value(dec(nd["v"]))
+        if k == "allopts":
+            return L.AllOptions
         if k == "opt":
             kw = {}
             d = nd["d"]
@@ -220,12 +222,21 @@ class Built:
             kw["effects"] = [self._effect(e, i) for e in nd["effs"]]
         if nd.get("cache") == "none":
             kw["cache"] = __import__("labrea.cache", fromlist=["NoCache"]).NoCache()
+        form = (i + len(self.nodes)) % 3   # three equivalent ways of saying the same dataset
         if nd["dflt"]:
             dn = self.nodes[nd["dflt"] - 1]
             if dn["k"] == "fnapp":
                 f = self.body(dn["f"], len(dn["args"]), i)
-                kw["defaults"] = {"a%d" % j: O[a] for j, a in enumerate(dn["args"])}
-                ds = L.dataset(f, **kw)
+                defaults = {"a%d" % j: O[a] for j, a in enumerate(dn["args"])}
+                if form == 0:
+                    ds = L.dataset(f, defaults=defaults, **kw)
+                elif form == 1:   # stacked factories: dataset(a=...)(b=...)(f)
+                    fac = L.dataset
+                    for key in sorted(kw):
+                        fac = fac(**{key: kw[key]})
+                    ds = fac.where(**defaults)(f)
+                else:             # decorator-with-arguments form
+                    ds = L.dataset(defaults=defaults, **kw)(f)
             else:
                 ds = L.dataset(O[nd["dflt"]], **kw)
         else:
@@ -237,7 +248,7 @@ class Built:
                 def abstract():
                     raise AssertionError("abstract dataset body must never run")
                 abstract.__name__ = "abstract_%d" % i
-            ds = L.abstractdataset(abstract, **kw)
+            ds = L.abstractdataset(abstract, **kw) if form != 1 else L.abstractdataset(**kw)(abstract)
         if nd["tab"]:
             self.tabowner[nd["tab"]] = i
         if nd.get("effoff"):
